@@ -3,6 +3,10 @@ import re
 
 T = "RsslVerif.Thm.C02."
 TS = "RsslVerif.Thm.C02Sem."
+TV = "RsslVerif.Thm.C02Vec."
+VEC_THEOREMS = ["msl_exporter_vec_shape_as_modelled", "msl_swizzle_letters_are_identity", "msl_vector_type_names_roundtrip",
+                "vec1_is_named_as_scalar", "vec_shape_sound", "gen_sem_msl_vec_expr", "gen_sem_msl_vec_assign", "literal_vector_cast_panics_msl",
+                "mulMV_toMetal", "ctor_from_scalars_transposes", "metal_subscript_is_a_column", "narrowing_to_vec1_is_not_metal"]
 SEM_THEOREMS = ["msl_exporter_shape_as_modelled", "msl_op_table_is_identity", "msl_literal_arms_same_as_hlsl", "msl_genLiteral_eq",
                 "gen_sem_expr", "gen_sem_expr_plain", "gen_sem_args", "gen_sem_stmt", "gen_sem_stmts", "gen_sem_func",
                 "trampoline_copy_semantics", "gen_sem_program", "ir_frame", "gen_sem_signatures",
@@ -16,6 +20,11 @@ CLASSES = ["S@plain", "G@array", "S@struct", "E@cbuffer", "Eo@texture", "E@texar
 def nontrivial(req, obs):
     # at least two calls between generated functions and one function that receives an implicit parameter
     f = req.split("\t")
+    if f[0] == "C02.vex":
+        return obs.startswith("vast ") and "(" in obs[5:40]
+    if f[0] == "C02.vfn":
+        # vector stream: the function was exported, is inside both evaluators and ran to completion on some vector
+        return obs.startswith("ast ") and " r=" in obs
     if f[0] == "C02.gen":
         # semantic stream: a supported function whose tree has a statement beyond a single return
         return obs.startswith("ast ") and obs.count("(") > 12
@@ -26,13 +35,19 @@ def nontrivial(req, obs):
 
 
 def finding_key(req, obs, detail):
-    if req.startswith("C02.gen\t") and not obs and not detail:
+    if req.startswith(("C02.gen\t", "C02.vfn\t", "C02.vex\t")) and not obs and not detail:
         # probe of vlib.shrink: failures of the semantic stream are keyed by their input, so a smaller failing input is welcome
         return req
     d = (detail or "")[5:]
     d = re.sub(r":\d+:", ":", d)          # panic line numbers move with unrelated edits
     d = re.sub(r"panic \S*?((?:msl|ir|typer|parser|formatter|preprocess|text|ast|hlsl)/src/)", r"panic \1", d)
     first = d.split(" ## ")[0]
+    if req.startswith(("C02.vfn\t", "C02.vex\t")) and first.startswith("panic "):
+        # a panic of the exporter is keyed by its site and message
+        return re.sub(r"\d+", "N", first)
+    if req.startswith(("C02.vfn\t", "C02.vex\t")) and not first.startswith("class:"):
+        # the specific input: source text, function and argument vectors (the IR is derived from the source)
+        return "input " + "\t".join(req.split("\t")[1:4]) + " :: " + first[:160]
     if first.startswith("class:"):
         # semantic stream: a difference attributed to one of the described readings (see notes/C02.md) is keyed by its class
         return first
@@ -69,6 +84,11 @@ def _shrink_gen(req):
 
 
 def shrink(req):
+    if req.startswith("C02.vfn\t"):
+        # structure-aware shrinker of the vector stream (one argument vector, whole definitions, statement groups)
+        from checks.c01 import shrink_v
+        yield from shrink_v(req)
+        return
     if req.startswith("C02.gen\t"):
         yield from _shrink_gen(req)
         return
@@ -118,6 +138,15 @@ def search(ctx):
             out.append(f"C02.thread\tg_0:S@plain;g_1:{cls}\tf_0:ib:xs.g1;f_1:-:{pos}.c0/_/g0;cs_main:i:xs.c1\t2")
     out.append("C02.thread\tg_0:S@plain\tf_0:d:xs.g0;f_1:-:xs.c0/_;cs_main:i:xs.c1\t2")
     out.append("C02.thread\tg_0:Sc@plain;g_1:S@plain:0\tcs_main:i:xs.g1\t0")
+    # vector layer: one small function per shape-changing arm of generate_expression
+    for src, args in [
+        ("float f(float s) { return s.xx.y + s.xxx.z; }", "f:3f800000"),
+        ("float2 f(float s, float3 v) { float2 t = s.xx; return t + (float2)v + (float2)(float)v; }", "f:3f800000,V(f:40000000 f:40400000 f:40800000)"),
+        ("float3 f(float4 v, int2 i) { return (float3)v.wzyx + float3(i, 1.0f).zxy; }", "V(f:3f800000 f:40000000 f:40400000 f:40800000),V(i:00000005 i:00000007)"),
+        ("float3 f(float3 v, float3 w) { return v % w; }", "V(f:3f800000 f:40000000 f:40400000),V(f:40000000 f:40400000 f:40800000)"),
+        ("struct S { float3 a; int2 b; };\nint f(S s, int k) { s.b.y = k; return s.b.y + (int)s.a.z; }", "S(V(f:3f800000 f:40000000 f:40400000) V(i:00000001 i:00000002)),i:00000009"),
+    ]:
+        out.append("C02.vfn\t%s\tf\t%s\t-\t-" % (src, args))
     return out
 
 
@@ -138,12 +167,24 @@ def custom(ctx):
         if bad:
             ctx.broken.append("the oracle reports a difference on a program that satisfies the hypotheses of gen_sem_*: "
                               + bad[0].split("\t")[1][:200])
+    custom_vec(ctx)
+
+
+def custom_vec(ctx):
+    """for how many of the explored vector expressions do the hypotheses of gen_sem_msl_vec_expr (VIr.typeOf + VOk.okMV) hold"""
+    vreqs = sorted(r for r in ctx.distinct if r.startswith("C02.vex\t") and r.split("\t")[2] != "-" and r.split("\t")[4] != "-")
+    if vreqs:
+        ans = ctx.run_model(["C02.vwt" + r[len("C02.vex"):] for r in vreqs])
+        ctx.extra["vector_theorem_hypotheses"] = {"requests": len(vreqs), "wt": ans.count("wt"), "not_wt": ans.count("not-wt"),
+                                                  "outside_layer": ans.count("unsupported")}
+        if ans.count("wt") < 0.9 * max(1, len(vreqs) - ans.count("unsupported")):
+            ctx.broken.append("coverage: fewer than 90% of the explored vector expressions satisfy gen_sem_msl_vec_expr's hypotheses")
 
 
 SPEC = {
     "id": "C02",
-    "gens": ["UsageTables", "MslGenTables"],
-    "lean_modules": ["RsslVerif.Thm.C02", "RsslVerif.Thm.C02Sem"],
+    "gens": ["UsageTables", "MslGenTables", "MslVecTables"],
+    "lean_modules": ["RsslVerif.Thm.C02", "RsslVerif.Thm.C02Sem", "RsslVerif.Thm.C02Vec"],
     "theorems": [T + n for n in [
         "tables_as_modelled", "all_positions_descended", "implicit_names_agree",
         "recurse_no_panic", "recurse_terminates", "measure_bounded_and_increasing", "close_is_reachability",
@@ -151,7 +192,7 @@ SPEC = {
         "requiredP_order_independent", "required_monotone", "args_align", "args_unchanged_without_implicit", "args_aligned_with_defaults",
         "threaded_exactly_partial", "calculateLocal_wf", "closeProgram_ok", "threaded_exactly_program_partial",
         "mentions_calculateLocal", "threaded_exactly",
-        "default_arguments_analysed", "global_initialisers_analysed"]] + [TS + n for n in SEM_THEOREMS],
+        "default_arguments_analysed", "global_initialisers_analysed"]] + [TS + n for n in SEM_THEOREMS] + [TV + n for n in VEC_THEOREMS],
     "harness": "c02",
     "nontrivial": nontrivial,
     "finding_key": finding_key,
@@ -174,7 +215,19 @@ SPEC = {
             "function (trampoline target, trampoline) + reference evaluation of the IR + evaluation of the emitted tree; "
             "the model answers with its own tree, the Lean Ir.phi and the Lean Msl.phi (Spec/SemMsl) on its tree; the "
             "oracle runs the emitted module under a C++/Metal evaluator with reference parameters and compares return "
-            "value, out/inout results and statics with the IR evaluation bit for bit on 4-6 argument vectors",
+            "value, out/inout results and statics with the IR evaluation bit for bit on 4-6 argument vectors. Vector layer "
+            "(streams C02.vfn / C02.vex): the vector / matrix / struct / array / enum / method / template / overload / default-"
+            "parameter programs of C01's generator (c01/vgen.rs, unchanged), matrix programs in the forms the Metal backend accepts "
+            "(whole-matrix parameters, statics, struct members, out/inout matrices, + - *, constructors, scalar casts, mul, "
+            "transpose) and programs around scalar swizzles, enum arithmetic, prototypes, value templates and nested structs are "
+            "exported by the real Metal exporter; the typed IR is evaluated by C01's reference evaluator (c01/virev.rs, unchanged; "
+            "mul / transpose restored as uninterpreted built-ins), the emitted tree by an independent Metal reading "
+            "(harness/src/c02/vmev*.rs: vector / matrix / struct / array values, places, thread references, C++ aggregates, methods "
+            "on the object's place, Metal's conversion rules, column-major matrices); return value, final out/inout arguments, "
+            "final statics and initial values of file-scope constants are compared bit for bit on 5 argument vectors per function; "
+            "C02.vex sends expression functions and statement-level vector assignments to the Lean vector model (tree of "
+            "Model.GenMslVec == exporter's tree, Lean VIr.eval == Rust IR evaluation, Lean VMsl.eval == VIr.eval under the "
+            "theorems' hypotheses)",
     "level_text": "Proof of the logic of implicit threading: the usage fixpoint loop (modelled with explicit key iteration "
                   "order, explicit unwrap failures and fuel) is proved for every table to terminate within |keys|^2+1 passes "
                   "without panicking, to compute exactly reachability through the local-use relation independently of the "
@@ -196,7 +249,20 @@ SPEC = {
                   "typed copy-in/copy-out call at every depth, under the semantic precondition that functions with out "
                   "parameters do not depend on their entry value). Outside the side conditions the statement is false on the current code: "
                   "negations with witnesses (INT_MIN / literal arithmetic typed long/int in Metal; inout copy-in after "
-                  "later arguments), both replayed on the real exporter as known findings.",
+                  "later arguments), both replayed on the real exporter as known findings. Vector layer (Thm/C02Vec): for the "
+                  "model Model/GenMslVec of the Cast (with try_implicit_truncate), Swizzle (vector and scalar halves), Constructor, "
+                  "vector-type-name and component-wise operator arms (text of every arm re-extracted: Gen.MslVecTables) "
+                  "gen_sem_msl_vec_expr proves by induction, re-using the scalar gen_sem_expr at the leaves, that the emitted "
+                  "expression is well typed under Metal's rules (Spec/SemMslVec: no implicit vector conversions, no vector->scalar "
+                  "or narrowing casts, members on vectors only, no promotion inside vectors, no % on floats) with exactly the IR's "
+                  "type and evaluates to the IR's value and store for every store, every interpretation of the primitives and "
+                  "every well-shaped value of the vector variables; vec_shape_sound (the typed semantics yields values of the "
+                  "static shape) discharges the static decisions; gen_sem_msl_vec_assign covers statement-level assignment and "
+                  "compound assignment to vector variables and swizzles; mulMV_toMetal proves that on the exporter's matrix "
+                  "correspondence (floatRxC |-> metal::floatCxR, the same logical matrix by columns) Metal's M*v is RSSL's "
+                  "mul(M,v); negation witnesses: the matrix constructor keeps row-major argument order (transposed matrix), "
+                  "(float1)v is emitted as an ill-typed (float)v. Matrices, structs, arrays, enums, methods, calls with vector "
+                  "arguments are covered by the correspondence streams only.",
     "trusted_base": [
         "Lean 4.33 kernel; axioms propext / Classical.choice / Quot.sound only (audited by #print axioms)",
         "tools/gens/c02.py (UsageTables): match-arm/field inventory of gather_usage_*, regex shape facts about "
@@ -224,6 +290,21 @@ SPEC = {
         "copied in when the argument list reaches it, left to right",
         "harness/src/c02/msleval.rs: an independent Rust implementation of the same Metal reading; the Lean Msl.phi and it "
         "are compared on every generated case (0 disagreements), as are Lean Ir.phi and the Rust IR evaluator of C01",
+        "tools/gens/c02.py (MslVecTables): exact-text facts about the Swizzle / Constructor / Cast arms of the Metal "
+        "generate_expression, try_implicit_truncate's three members, the Vector / Matrix arms of generate_type_impl, the Mul / "
+        "Transpose arms of generate_intrinsic_function, the rejection of matrix subscripts / matrix swizzles",
+        "Spec/SemMslVec.lean: our reading of Metal's vector rules (MSL specification): type names bool/int/uint/float and "
+        "T2..T4 only; implicit conversion scalar->scalar and scalar->vector only; explicit conversion scalar->scalar, "
+        "scalar->vector (replicated), vector->vector of the same size; constructors flatten; .xyzw members on vectors only; "
+        "component-wise operators on operands of one vector type, a scalar operand converted to the element type; no integer "
+        "promotion inside vectors; `%`/`%=` undefined on floats, metal::fmod = the float remainder; swizzled assignment "
+        "targets need distinct components; matrices floatCxR = C columns of R, constructor from scalars column-major, from one "
+        "scalar diagonal, m[i] a column, M*v the linear-algebra product (Mat section: definitions used by mulMV_toMetal)",
+        "the typed vector semantics Spec/SemVec of C01 (VIr.eval / evalTop / typeOf, shared, unchanged)",
+        "harness/src/c02/vmev*.rs: an independent Rust implementation of the Metal reading extended to matrices, structs, "
+        "arrays, enums, methods, references, aggregates and the metal:: library names (uninterpreted built-ins of c01/vval.rs "
+        "under the name of the RSSL built-in they implement; `1 / x` = rcp; select argument order reversed); compared with "
+        "the Lean VMsl.eval through the model answers of C02.vex, and with C01's IR evaluator on every C02.vfn case",
     ],
     "assumptions": [
         "names: every global/function/parameter keeps a distinct Metal name (C15); the model works on indices",
@@ -244,5 +325,19 @@ SPEC = {
         "the entry value of an out parameter (the source writes it first: no definite-assignment analysis is formalised); "
         "syntactically (SynOK) that no function mentions a trampoline's scratch slot and that a void function with a "
         "trampoline has no `return e;`",
+        "vector layer, side conditions of gen_sem_msl_vec_expr / _assign (Spec/SemMslVec VOk.okMV, placeOKM): types are "
+        "bool/int/uint/float scalars or 2-4 component vectors (no float1: emitted as the scalar, known finding for the cast; "
+        "no literal kinds: vectors of literal types panic, known finding); no widening vector casts; unary - + ~ and binary "
+        "arithmetic / bitwise / relational operators on *scalar* operands need int/uint/float (bool scalars are promoted in "
+        "C++: oracle only); scalar leaves satisfy the scalar side conditions and are not the bare Int32(i32::MIN); vector "
+        "variables are in scope under their emitted names (C15) and hold values of their declared shape (vec_shape_sound "
+        "propagates it); `&&` `||` `?:` have scalar bool conditions (the type checker's own restriction in VIr.typeOf); "
+        "assignment targets are vector variables or swizzles with distinct components of variables of vector type; `%=` on "
+        "integers only (on floats: known finding). 95% of the generated expression / assignment functions satisfy them",
+        "vector stream oracle: a method call whose argument writes the object is skipped (C01's typed evaluator copies the "
+        "object in and out, C++ and DXC pass `this` by reference: not a difference of the exporter); built-ins whose Metal form "
+        "is not a call of one library function (sign on ints, rcp only as `1 / x`) are skipped or read as stated above; initial "
+        "values of threaded statics are taken from the IR evaluation (their initialisers are emitted by the entry wrapper, "
+        "pipeline.rs, which verif_generate_ast does not run)",
     ],
 }
